@@ -289,3 +289,110 @@ static int cmd_sys(int, char**) {
   return 0;
 }
 static th::Reg r4("sys", cmd_sys);
+
+// vmwalk: I->S with exhaustive coverage. One VM instance is walked through its complete reachable state graph: from the current
+// state an unexplored (state, call) pair is taken if there is one, otherwise the walk moves along already known transitions to the
+// nearest state that still has one (reset makes the graph strongly connected). Every call is logged as a TheoVMTrace event, so the
+// specification has to explain every transition of the real debugger on this program, not a sample of them.
+// input : {"p":k,"files":..,"main":..,"max_states":n}
+#include <deque>
+#include <unordered_map>
+static int cmd_vmwalk(int, char**) {
+  signal(SIGALRM, on_alarm);
+  std::string line;
+  while (std::getline(std::cin, line)) {
+    if (line.empty()) continue;
+    json in = json::parse(line);
+    CodegenResult cr = compile(th::files_of(in), in.value("main", "m"));
+    if (!cr.generated_correctly) { th::emit({{"skip", in["p"]}}); continue; }
+    int p = in["p"].get<int>();
+    size_t max_states = in.value("max_states", 20000);
+    Program prog = cr.code;
+    std::vector<json> calls;   // the call alphabet
+    calls.push_back({{"e", "single"}}); calls.push_back({{"e", "execute"}}); calls.push_back({{"e", "clear"}}); calls.push_back({{"e", "reset"}});
+    calls.push_back({{"e", "step"}, {"v", true}}); calls.push_back({{"e", "step"}, {"v", false}});
+    std::vector<BreakPoint> locs;
+    for (auto& b : prog.getAvailableBreakpoints()) locs.push_back(b);
+    locs.push_back(BreakPoint{"nofile", 1});
+    for (auto& b : locs) for (bool v : {true, false}) calls.push_back({{"e", "bp"}, {"file", b.file}, {"line", b.line}, {"v", v}});
+    const size_t NC = calls.size();
+    VM v(cr.code);
+    th::emit({{"e", "load"}, {"p", p}});
+    auto key_of = [&](VM& m) {
+      json o = observe(m, cr.code, "none");
+      o.erase("ret");
+      return o.dump();
+    };
+    std::unordered_map<std::string, int> id;           // state key -> index
+    std::vector<std::vector<int>> succ;                 // succ[state][call] = state or -1
+    auto intern = [&](const std::string& k) {
+      auto it = id.find(k);
+      if (it != id.end()) return it->second;
+      int n = (int)succ.size();
+      id.emplace(k, n);
+      succ.push_back(std::vector<int>(NC, -1));
+      return n;
+    };
+    int cur = intern(key_of(v));
+    long steps = 0;
+    bool truncated = false;
+    auto apply = [&](size_t c) {
+      const json& call = calls[c];
+      std::string e = call["e"].get<std::string>(), ret = "none";
+      json ev = call;
+      alarm(20);
+      if (e == "single") {
+        int ip = v.verifInstructionPointer();
+        const Instruction& I = v.verifProgram().code[ip];
+        bool isadd = I.op == OpCode::ADD_CONST;
+        int tgt = isadd ? I.parameters.add.target : 0;
+        size_t depth = v.verifDepth();
+        int base = depth ? v.verifFrame(depth - 1).data_start : 0;
+        ret = v.executeSingle() ? "true" : "false";
+        if (isadd && (size_t)(base + tgt) < v.verifData().size()) ev["addres"] = v.verifData()[base + tgt];
+      } else if (e == "execute") v.execute();
+      else if (e == "clear") v.clearBreakpoints();
+      else if (e == "reset") v.reset();
+      else if (e == "step") v.setSteppingMode(call["v"].get<bool>());
+      else if (e == "bp") ret = v.setBreakPoint(call["file"].get<std::string>(), call["line"].get<int>(), call["v"].get<bool>()) ? "true" : "false";
+      alarm(0);
+      json o = observe(v, cr.code, ret);
+      o.erase("data");
+      for (auto& kv : o.items()) ev[kv.key()] = kv.value();
+      th::emit(ev);
+      steps++;
+      o.erase("ret");
+      json k = observe(v, cr.code, "none"); k.erase("ret");
+      int nxt = intern(k.dump());
+      succ[cur][c] = nxt;
+      cur = nxt;
+    };
+    for (;;) {
+      if (succ.size() > max_states) { truncated = true; break; }
+      // an unexplored call in the current state?
+      size_t c = 0;
+      while (c < NC && succ[cur][c] != -1) c++;
+      if (c < NC) { apply(c); continue; }
+      // breadth-first search over known transitions for the nearest state with an unexplored call
+      std::vector<int> prev(succ.size(), -2), via(succ.size(), -1);
+      std::deque<int> q; q.push_back(cur); prev[cur] = -1;
+      int target = -1;
+      while (!q.empty() && target < 0) {
+        int s = q.front(); q.pop_front();
+        for (size_t k = 0; k < NC; k++) {
+          int t = succ[s][k];
+          if (t < 0) { target = s; break; }
+          if (prev[t] == -2) { prev[t] = s; via[t] = (int)k; q.push_back(t); }
+        }
+      }
+      if (target < 0) break;          // everything explored
+      std::vector<int> path;
+      for (int s = target; s != cur; s = prev[s]) path.push_back(via[s]);
+      for (auto it = path.rbegin(); it != path.rend(); ++it) apply((size_t)*it);
+    }
+    std::cerr << "vmwalk p=" << p << " states=" << succ.size() << " calls=" << NC << " steps=" << steps << (truncated ? " TRUNCATED" : " complete") << "\n";
+    th::emit({{"walk", p}, {"states", (int)succ.size()}, {"alphabet", (int)NC}, {"steps", steps}, {"complete", !truncated}});
+  }
+  return 0;
+}
+static th::Reg r5("vmwalk", cmd_vmwalk);
